@@ -6,6 +6,7 @@ import (
 	"diagonal.works/b6"
 	"diagonal.works/b6/encoding"
 	"diagonal.works/b6/ingest"
+	"github.com/golang/geo/s2"
 )
 
 // C17 / C01: feature blocks written with the real builders (layout from
@@ -428,5 +429,104 @@ func VH_C17_PointsAcrossBlocks() {
 	}
 	if stored {
 		vAssert(f.HasFeatureWithID(probe), "HasFeatureWithID agrees with FindFeatureByID for a point of a later file")
+	}
+}
+
+// C01 (area data path): an area whose polygons are given by path IDs (1..2
+// polygons of 1..2 paths each - quick: the second polygon has one path and
+// only a polygon's first path may be in the other namespace -, symbolic 64-bit path ids in the OSM-way
+// namespace or another one), optionally preceded by an explicitly given
+// polygon (so that the mixed encoding is chosen; the explicit polygon is empty
+// and drops out), goes through Area.FromFeature -> Area.Marshal -> hash map ->
+// FeaturesByID -> marshalledArea and reads back with its id, its tag, the same
+// number of polygons and the same path ids per polygon (read from the
+// unmarshalled geometry, as marshalledArea.Feature does before it looks the
+// paths up).
+//
+//vh:steps=8000000 split=4
+func VH_C01_AreaDataPath() {
+	nt := vhNamespaceTable()
+	sb, st := vhStringTable("#landuse", "park")
+	mixed := vBool("mixed")
+	npolys := 1 + vChoice("polygons", 2)
+	first := 0
+	if mixed {
+		first = 1
+	}
+	area := ingest.NewAreaFeature(first + npolys)
+	id := vhC01ID()
+	area.AreaID = b6.MakeAreaID(vhNSA, id)
+	area.AddTag(b6.Tag{Key: "#landuse", Value: b6.NewStringExpression("park")})
+	if mixed {
+		area.SetPolygon(0, &s2.Polygon{})
+	}
+	want := make([][]b6.FeatureID, npolys)
+	for i := 0; i < npolys; i++ {
+		npaths := 1
+		if i == 0 || vTier() == 1 {
+			npaths = 1 + vChoice("paths", 2)
+		}
+		for j := 0; j < npaths; j++ {
+			ns := b6.NamespaceOSMWay
+			if (j == 0 || vTier() == 1) && vBool("otherns") {
+				ns = vhNSA
+			}
+			v := vU64("path")
+			if vTier() == 0 {
+				low := v & 63
+				vAssume(v == low || v == 1<<63|low)
+			}
+			want[i] = append(want[i], b6.FeatureID{Type: b6.FeatureTypePath, Namespace: ns, Value: v})
+		}
+		area.SetPathIDs(first+i, want[i])
+	}
+
+	builders := make(FeatureBlockBuilders)
+	addFeatureBlockBuilder(builders, b6.FeatureTypeArea, vhNSA, 1, nt)
+	b := builders[NamespacedFeatureType{Namespace: nt.Encode(vhNSA), FeatureType: b6.FeatureTypeArea}]
+	osm := OSMNamespaces(nt)
+	var a Area
+	scratch := make([]byte, 256)
+	a.FromFeature(area, sb, nt, scratch)
+	vReach("encoded")
+	vAssert(a.Polygons != nil, "the area's geometry is encoded")
+	if a.Polygons == nil {
+		return
+	}
+	buf := make([]byte, 512)
+	w := a.Marshal(&osm, buf)
+	b.Map.Reserve(id, encoding.NoTag, w)
+	b.Map.FinishReservation()
+	out := encoding.NewBufferWithData(nil)
+	end, err := b.Map.WriteHeader(out, 0)
+	vAssert(err == nil, "WriteHeader")
+	vAssert(b.Map.WriteItem(id, encoding.NoTag, buf[:w], out) == nil, "WriteItem")
+	data := out.Bytes()
+	for len(data) < int(end) {
+		data = append(data, 0)
+	}
+	fb := &featureBlock{FeatureBlock: FeatureBlock{FeatureBlockHeader: b.Header, Map: encoding.NewUint64Map(data)}, Strings: st, NamespaceTable: nt}
+	f := &FeaturesByID{base: emptyFeaturesByID{}}
+	f.features[b6.FeatureTypeArea] = []*featureBlock{fb}
+	got := f.findWithoutCache(area.FeatureID())
+	vReach("read")
+	vAssert(got != nil, "the area is found by its id")
+	if got == nil {
+		return
+	}
+	ma := got.(*marshalledArea)
+	vAssert(ma.FeatureID() == area.FeatureID(), "id")
+	vAssert(ma.Get("#landuse").Value.String() == "park", "string tag survives")
+	vAssert(ma.Len() == npolys, "the area has as many polygons as were written")
+	ma.fillGeometry()
+	for i := 0; i < npolys && i < ma.geometry.Len(); i++ {
+		ids, ok := ma.geometry.PathIDs(i)
+		vAssert(ok && len(ids) == len(want[i]), "a polygon has as many paths as were written")
+		for j := range ids {
+			if j < len(want[i]) {
+				typ, ns := ids[j].TypeAndNamespace.Split()
+				vAssert(vAll(typ == b6.FeatureTypePath, nt.Decode(ns) == want[i][j].Namespace, ids[j].Value == want[i][j].Value), "path ids survive per polygon, in order")
+			}
+		}
 	}
 }
